@@ -522,8 +522,23 @@ fn run_case(case: &Value) -> Value {
     rt.block_on(run_case_async(case))
 }
 
+/// message of the last panic anywhere in the process (also inside spawned tasks, where tokio swallows it)
+static LAST_PANIC: std::sync::Mutex<Option<String>> = std::sync::Mutex::new(None);
+
 fn main() {
-    std::panic::set_hook(Box::new(|_| {}));
+    std::panic::set_hook(Box::new(|info| {
+        if let Ok(mut g) = LAST_PANIC.lock() {
+            *g = Some(info.to_string());
+        }
+    }));
+    // Real nodes always run with a tracing subscriber, and `tracing` evaluates the arguments of
+    // `error!`/`warn!`/`debug!`/`trace!` lines only when one enables the callsite: install one at TRACE
+    // level that formats every event's fields into a sink, so that log-argument evaluation is part of
+    // every implementation run (a panic there surfaces as the `panic` class).
+    let _ = tracing_subscriber::fmt()
+        .with_max_level(tracing::Level::TRACE)
+        .with_writer(std::io::sink)
+        .try_init();
     let stdin = std::io::stdin();
     let out = std::io::stdout();
     let mut out = out.lock();
@@ -533,7 +548,10 @@ fn main() {
             continue;
         }
         let case: Value = serde_json::from_str(&line).unwrap();
-        let res = catch_unwind(AssertUnwindSafe(|| run_case(&case))).unwrap_or_else(|p| {
+        if let Ok(mut g) = LAST_PANIC.lock() {
+            *g = None;
+        }
+        let mut res = catch_unwind(AssertUnwindSafe(|| run_case(&case))).unwrap_or_else(|p| {
             let msg = p
                 .downcast_ref::<String>()
                 .cloned()
@@ -541,6 +559,12 @@ fn main() {
                 .unwrap_or_default();
             json!({"panic": msg})
         });
+        // a panic inside a spawned task does not unwind into run_case: report it all the same
+        if res.get("panic").is_none() {
+            if let Some(msg) = LAST_PANIC.lock().ok().and_then(|mut g| g.take()) {
+                res = json!({"panic": format!("in a spawned task: {msg}")});
+            }
+        }
         writeln!(out, "{res}").unwrap();
         out.flush().unwrap();
     }
